@@ -32,7 +32,7 @@ Section TwoRuns.
   Lemma run_acts_eq : forall l c, locked c = true -> run_acts n1 l c = run_acts n2 l c.
   Proof.
     induction l as [|a l IH]; intros c L; simpl; auto.
-    destruct a as [e tag|x]; auto.
+    destruct a as [e tag|x|s]; auto.
     rewrite agree by exact L.
     pose proof (lock2 {| td_ev := Some e; td_tag := tag |} c) as P.
     destruct (n2 _ c) as [c' v|c' x|]; auto.
